@@ -1005,6 +1005,7 @@ func first(a, _ []byte) []byte { return a }
 //@   opt casts on
 //@   requires liveRef(root) && HeapOKN() && LinkedLive()
 //@   ensures[pure] frame()
+//@   yield_requires[only_matching] last("predicate") && lastarg("predicate", 0) == k && lastarg("predicate", 1) == v
 //@   loop 1 (q)
 //@     invariant stackOK(q)
 //@   loop 2 (i)
